@@ -5,6 +5,10 @@ ROOT = os.path.dirname(os.path.dirname(os.path.abspath(__file__)))
 
 # id -> (level, technique, level text, level note, design ref)
 CLAIMED = {
+ "C08": ("exploration", "runtime monitoring: online sequential reference model (row array + position counter) checked after every operation of PRNG seek/read histories on 11 reader kinds",
+         "Held on every explored history: after each SeekToRow/Read step on Reader, GenericReader, RowGroup.Rows, ColumnChunk.Pages, file-level Column.Pages, flat and nested MultiRowGroup rows and pages, buffers, row-range views and async rows, the rows returned equal rows[pos:pos+n] of a fresh sequential pass (values and levels), with no early/late EOF; files cover v1/v2, dictionary, nested/repeated columns, 1..n row groups, with/without page index, small read buffers; histories are biased to page boundaries, the last returned page, repeated seeks and the end. Sampling of an unbounded history space: exploration.",
+         "Ground truth = one sequential pass of a fresh reader of the same object. Seeks beyond NumRows are not issued. The thorough tier additionally runs under the race detector.",
+         "DESIGN.md §4 C08"),
  "C06": ("exploration", "runtime monitoring: ground-truth oracle from generated page layouts over an exhaustively enumerated small space plus PRNG and writer-produced column indexes",
          "Held on every probed (layout, true order claim, value): all layouts of 1..4 pages (5 in thorough) over a 5-value alphabet with null pages anywhere are enumerated exhaustively with every boundary-order claim that is true for them, plus PRNG layouts up to 200 pages and the column indexes of written files (int32, truncated byte arrays, FLBA); Search, Find(NullsLast) and Find(NullsFirst) never return a page after the first page containing the value, only return pages whose bounds contain it, and return NumPages only when no bounds contain it. The enumerated sub-space is complete; the rest is sampling: exploration.",
          "Order claims fed to the search are computed truthfully from the layout (null pages ignored), as the statement is about indexes the writer can produce; C05 checks that the writer's claims are true.",
